@@ -14,10 +14,10 @@ Definition TR (R : Z -> Prop) (me : tl) : Prop :=
 Definition RInv (R : Z -> Prop) (s : state) : Prop :=
   (forall r, cache s = Done r -> R r) /\ forall t, TR R (th s t).
 
-Lemma RInv_init R : RInv R init.
+Lemma RInv_init (R : Z -> Prop) : RInv R init.
 Proof. split; [|intros t; repeat split]; cbn; intros; discriminate. Qed.
 
-Lemma RInv_upd R s t me' c' ow nl nd :
+Lemma RInv_upd (R : Z -> Prop) s t me' c' ow nl nd :
   (forall r, c' = Done r -> R r) -> TR R me' -> (forall t0, TR R (th s t0)) ->
   RInv R (mkSt (setth s t me') c' ow nl nd).
 Proof.
@@ -33,7 +33,12 @@ Ltac rclean :=
          | H : Ret _ = Ret _ |- _ => inversion H; subst; clear H
          end.
 
-Lemma stepR_RInv R p s t s' : RInv R s -> stepR R p s t s' -> RInv R s'.
+Ltac requate :=
+  repeat match goal with
+         | H1 : ?a = _, H2 : ?a = _ |- _ => rewrite H1 in H2
+         end.
+
+Lemma stepR_RInv (R : Z -> Prop) p s t s' : RInv R s -> stepR R p s t s' -> RInv R s'.
 Proof.
   intros [Hc Hall] (o & H & HR). destruct (Hall t) as (Hres & Hx & Hpc).
   assert (Hxof : forall c r, cache s = c -> xof c = XDone r -> R r).
@@ -43,25 +48,25 @@ Proof.
          | match ?x with _ => _ end = Some _ => destruct x eqn:?
          end; try discriminate; inversion H; subst; clear H; unfold loc, goto;
   (apply RInv_upd; [ | unfold TR; cbn [pc xv res held fraised nstart]; repeat split | assumption ]);
-  intros; rclean; try discriminate; eauto;
+  intros; requate; rclean; try discriminate; eauto;
   try (eapply Hxof; [eassumption | cbn [xof]; eauto; fail]).
   all: try (apply HR; split; [eexists; eassumption | reflexivity]).
 Qed.
 
-Lemma reachR_RInv R p s : reachR R p s -> RInv R s.
+Lemma reachR_RInv (R : Z -> Prop) p s : reachR R p s -> RInv R s.
 Proof. induction 1; [apply RInv_init | eapply stepR_RInv; eauto]. Qed.
 
-Lemma reachR_reach R p s : reachR R p s -> reach p s.
+Lemma reachR_reach (R : Z -> Prop) p s : reachR R p s -> reach p s.
 Proof.
   induction 1 as [|s t s' _ IH (o & H & _)]; [constructor|]. eapply r_step; eauto. exists o; exact H.
 Qed.
 
 Lemma reach_reachR_True p s : reach p s -> reachR (fun _ => True) p s.
 Proof.
-  induction 1 as [|s t s' _ IH [o H]]; [constructor|]. eapply rr_step; eauto. exists o; split; auto.
+  induction 1 as [|s t s' _ IH [o H]]; [constructor|]. apply (rr_step _ p s t s' IH). exists o; split; auto.
 Qed.
 
-Lemma result_is_f_result R p s t r :
+Lemma result_is_f_result (R : Z -> Prop) p s t r :
   reachR R p s -> (cache s = Done r \/ returned s t r) -> R r.
 Proof.
   intros H. destruct (reachR_RInv R p s H) as [Hc Hall]. intros [E|E]; [auto|].
@@ -77,7 +82,7 @@ Proof.
   induction 1 as [|s h t o s' _ IH Hs]; intros R HR; [constructor|].
   eapply rr_step.
   - apply IH. intros r Hr. apply HR. apply hist_upd_incl; auto.
-  - exists o. split; auto. intros r [[n E] ->]. apply HR. unfold hist_upd. rewrite E. left; auto.
+  - exists o. split; [exact Hs|]. intros r Hf. destruct Hf as [[n E] ->]. apply HR. unfold hist_upd. rewrite E. left; auto.
 Qed.
 
 Lemma reachH_reach p s h : reachH p s h -> reach p s.
